@@ -337,7 +337,8 @@ def corpus():
                                    'b/src/x.rs': 'use zz::S;\n#[typeshare]\npub struct B1 { pub f: S }\n'}, order=True, reps=12)
     mk('same-name-named-crate', {'a/src/lib.rs': '#[typeshare]\npub struct S { pub x: u8 }\n', 'c/src/lib.rs': '#[typeshare]\npub struct S { pub z: u8 }\n',
                                  'b/src/x.rs': 'use c::S;\n#[typeshare]\npub struct B1 { pub f: S }\n'})
-    mk('bare-use-crash', {'a/src/lib.rs': 'use foo;\n#[typeshare]\npub struct A1 { pub x: u8 }\n'}, crash=True)
+    # `use foo;` was a worker panic (hang) at visitors.rs:401 - fixed in /repo (C07-visitors.rs:401): a leaf without a path imports nothing
+    mk('bare-use', {'a/src/lib.rs': 'use foo;\nuse {a1, b::B1};\nuse *;\n#[typeshare]\npub struct A1 { pub x: u8 }\n', 'b/src/lib.rs': '#[typeshare]\npub struct B1 { pub x: u8 }\n'})
     mk('swift-file-collision', {'a_b/src/lib.rs': '#[typeshare]\npub struct A1 { pub x: u8 }\n', 'a__b/src/lib.rs': '#[typeshare]\npub struct A2 { pub x: u8 }\n'})
     mk('dash-and-underscore-same-crate', {'a-b/src/lib.rs': '#[typeshare]\npub struct A1 { pub x: u8 }\n', 'a_b/src/lib.rs': '#[typeshare]\npub struct A2 { pub x: A1 }\n'})
     mk('aliases-outside-domain', {'a/src/lib.rs': A, 'e/src/lib.rs': '#[typeshare]\npub struct E1 { pub x: u8 }\n',
